@@ -3,6 +3,8 @@ import Driver.Match
 import Driver.Store
 import Driver.PathGuard
 import Driver.Sandbox
+import Driver.Audit
+import Driver.Migrate
 open Sfw
 
 /-- a suite is a state machine over protocol lines -/
@@ -19,6 +21,8 @@ def dispatch (suite : String) : Option Suite :=
   | "match" => some (pureSuite Driver.matchStep)
   | "pathguard" => some (pureSuite Driver.pathGuardStep)
   | "sandbox" => some (pureSuite Driver.sandboxStep)
+  | "audit" => some (pureSuite Driver.auditStep)
+  | "migrate" => some { σ := Sfw.Migrate.JsonDb, init := Sfw.Migrate.JsonDb.empty, step := Driver.migrateStep }
   | "store" => some { σ := Sfw.Store.KV, init := Sfw.Store.init, step := Driver.storeStep }
   | _ => none
 
